@@ -388,3 +388,126 @@ pub fn case() -> BoxedStrategy<ZCase> {
     ];
     (any::<bool>(), proptest::collection::vec(op, 0..=24)).prop_map(|(shared, ops)| ZCase { shared, ops }).boxed()
 }
+
+// ---------------------------------------------------------------------------------------------
+// Other value shapes for the conditional setters (C01): byte-string values whose `Hash` feeds the
+// hasher a slice (not a single integer), and a value type whose `==` is coarser than identity.
+
+/// ASCII-case-insensitive equality and hash; the stored bytes stay visible through `get`.
+#[derive(Clone, Debug)]
+pub struct Ci(pub Vec<u8>);
+impl PartialEq for Ci {
+    fn eq(&self, o: &Self) -> bool {
+        self.0.eq_ignore_ascii_case(&o.0)
+    }
+}
+impl std::hash::Hash for Ci {
+    fn hash<H: std::hash::Hasher>(&self, h: &mut H) {
+        self.0.to_ascii_lowercase().hash(h)
+    }
+}
+
+#[derive(Clone, Debug, Serialize, Deserialize, PartialEq, Eq, Hash)]
+pub struct ShapeCase {
+    pub a: Vec<u8>,
+    pub b: Vec<u8>,
+    /// 0: Vec<u8>, 1: String (from the bytes as ASCII letters), 2: Ci
+    pub kind: u8,
+    pub shared: bool,
+}
+
+fn shape_fail(prop: Prop, props: &[Prop], msg: String) -> Stop {
+    if props.contains(&prop) {
+        Stop::Violation(format!("[value shapes] {msg}"))
+    } else {
+        Stop::Tainted(msg)
+    }
+}
+
+/// One observable holding `a`, one subscriber; `set_if_hash_not_eq(b)` and `set_if_not_eq(b)` must
+/// store, notify and return Some(a) exactly when b differs (by hash / by ==) and otherwise change
+/// nothing - in particular keep the stored representation - and return None.
+pub fn run_shape(case: &ShapeCase, prop: Prop) -> R<CaseReport> {
+    let mut rep = CaseReport::default();
+    let letters = |v: &Vec<u8>| -> Vec<u8> { v.iter().map(|b| b"abABrR01"[(*b % 8) as usize]).collect() };
+    let (a, b) = (letters(&case.a), letters(&case.b));
+    macro_rules! go {
+        ($mk:expr, $same_hash:expr, $same_eq:expr, $show:expr) => {{
+            for by_hash in [true, false] {
+                let (va, vb) = ($mk(&a), $mk(&b));
+                let differs = if by_hash { !$same_hash } else { !$same_eq };
+                let flag = Flag::new();
+                let w = flag_waker(&flag);
+                let mut cx = Context::from_waker(&w);
+                let (ret, now, ready) = if case.shared {
+                    let ob = SharedObservable::new(va.clone());
+                    let mut sub = ob.subscribe();
+                    let _ = Pin::new(&mut sub).poll_next(&mut cx);
+                    let ret = if by_hash { ob.set_if_hash_not_eq(vb.clone()) } else { ob.set_if_not_eq(vb.clone()) };
+                    let ready = matches!(Pin::new(&mut sub).poll_next(&mut cx), Poll::Ready(Some(_)));
+                    (ret, ob.get(), ready)
+                } else {
+                    let mut ob = Observable::new(va.clone());
+                    let mut sub = Observable::subscribe(&ob);
+                    let _ = Pin::new(&mut sub).poll_next(&mut cx);
+                    let ret = if by_hash { Observable::set_if_hash_not_eq(&mut ob, vb.clone()) } else { Observable::set_if_not_eq(&mut ob, vb.clone()) };
+                    let ready = matches!(Pin::new(&mut sub).poll_next(&mut cx), Poll::Ready(Some(_)));
+                    (ret, Observable::get(&ob).clone(), ready)
+                };
+                rep.checks += 4;
+                let what = if by_hash { "set_if_hash_not_eq" } else { "set_if_not_eq" };
+                let exp_now = if differs { $show(&vb) } else { $show(&va) };
+                if ret.is_some() != differs {
+                    return Err(shape_fail(prop, &[Prop::C01], format!("{what}({:?}) on {:?} returned {}, expected {}", $show(&vb), $show(&va), if ret.is_some() { "Some" } else { "None" }, if differs { "Some" } else { "None" })));
+                }
+                if let Some(p) = &ret {
+                    if $show(p) != $show(&va) {
+                        return Err(shape_fail(prop, &[Prop::C01], format!("{what} returned {:?} as the previous value, it was {:?}", $show(p), $show(&va))));
+                    }
+                }
+                if $show(&now) != exp_now {
+                    return Err(shape_fail(prop, &[Prop::C01], format!("after {what}({:?}) on {:?} the stored value is {:?}, expected {:?}", $show(&vb), $show(&va), $show(&now), exp_now)));
+                }
+                if ready != differs {
+                    return Err(shape_fail(prop, &[Prop::C01, Prop::C02], format!("after {what}({:?}) on {:?} the subscriber is {}, expected {}", $show(&vb), $show(&va), if ready { "ready" } else { "Pending" }, if differs { "ready" } else { "Pending" })));
+                }
+                if differs && !flag.woken() {
+                    return Err(shape_fail(prop, &[Prop::C02], format!("{what} stored a new value but the pending subscriber's waker was not woken")));
+                }
+            }
+        }};
+    }
+    match case.kind % 3 {
+        0 => go!(|v: &Vec<u8>| v.clone(), a == b, a == b, |v: &Vec<u8>| v.clone()),
+        1 => go!(|v: &Vec<u8>| String::from_utf8(v.clone()).unwrap(), a == b, a == b, |v: &String| v.clone().into_bytes()),
+        _ => go!(|v: &Vec<u8>| Ci(v.clone()), a.eq_ignore_ascii_case(&b), a.eq_ignore_ascii_case(&b), |v: &Ci| v.0.clone()),
+    }
+    rep.nontrivial = a != b;
+    rep.classes.push(match case.kind % 3 {
+        0 => "bytes_value",
+        1 => "string_value",
+        _ => "coarse_equality_value",
+    });
+    if a != b && a.eq_ignore_ascii_case(&b) {
+        rep.classes.push("equal_but_not_identical");
+    }
+    Ok(rep)
+}
+
+pub fn shape_case() -> BoxedStrategy<ShapeCase> {
+    let bytes = || proptest::collection::vec(any::<u8>(), 0..=11);
+    (bytes(), bytes(), 0u8..3, any::<bool>(), any::<bool>())
+        .prop_map(|(a, b, kind, shared, near)| {
+            // half of the cases: b is a with one position changed (same length, near-collisions)
+            let b = if near && !a.is_empty() {
+                let mut c = a.clone();
+                let i = (b.first().copied().unwrap_or(0) as usize) % c.len();
+                c[i] = c[i].wrapping_add(b.get(1).copied().unwrap_or(1) | 1);
+                c
+            } else {
+                b
+            };
+            ShapeCase { a, b, kind, shared }
+        })
+        .boxed()
+}
